@@ -132,7 +132,7 @@ package asset
 //@ macro synced(source, target, name, dflt) = has(view(target), name) && len(view(target)[name]) == old(len(view(target)[name])) + cntsince(view(source)[name], syncstart(target, name, dflt), len(view(source)[name])) && (forall k :: 0 <= k && k < old(len(view(target)[name])) ==> view(target)[name][k] == old(view(target)[name][k])) && (forall k :: 0 <= k && k < len(view(source)[name]) ==> (view(source)[name][k].Date >= syncstart(target, name, dflt) ==> view(target)[name][old(len(view(target)[name])) + cntsince(view(source)[name], syncstart(target, name, dflt), k)] == view(source)[name][k]))
 
 //@ func Sync.Run
-//@ modifies s
+//@ modifies s, target
 //@ requires source != target && len(s.Assets) >= 1
 //@ requires forall a, b :: 0 <= a && a < b && b < len(s.Assets) ==> s.Assets[a] != s.Assets[b]
 //@ ensures[C12] "no-error-means-every-asset-synced" result == nil ==> (forall j :: 0 <= j && j < len(s.Assets) ==> synced(source, target, s.Assets[j], defaultStartDate))
